@@ -310,8 +310,28 @@ def shard(ctx: Ctx, fmt: str):
     part = Partial()
     if fmt in SHEET_FORMATS:
         n = ctx.n(300, 5000)
-        optst = st.fixed_dictionaries({"inline_strings": st.booleans(), "permute_parts": st.booleans()}) if fmt == "xlsx" else st.just({})
-        cases = st.tuples(sheets.grids(fmt, headers="any"), optst).map(lambda t: {"grid": t[0], "opts": t[1]})
+        optst = st.fixed_dictionaries({"inline_strings": st.booleans(), "permute_parts": st.booleans()}) if fmt == "xlsx" else (st.fixed_dictionaries({"rle": st.booleans()}) if fmt == "ods" else st.just({}))
+
+        def dupify(t):
+            """copy some cells onto their right / lower neighbour: real sheets are full of equal neighbouring values"""
+            g, picks = copy.deepcopy(t[0]), t[1]
+            for si, r, c, down in picks:
+                rows = g["sheets"][si % len(g["sheets"])]["rows"]
+                if not rows:
+                    continue
+                row = rows[r % len(rows)]
+                if not row:
+                    continue
+                cell = row[c % len(row)]
+                if cell is None or (cell["t"] == "s" and cell["v"][:2] == "ZB"):
+                    continue            # body tokens stay unique (the unit-text clause counts them)
+                if down and (r % len(rows)) + 1 < len(rows) and (c % len(row)) < len(rows[(r % len(rows)) + 1]):
+                    rows[(r % len(rows)) + 1][c % len(row)] = copy.deepcopy(cell)
+                elif (c % len(row)) + 1 < len(row):
+                    row[(c % len(row)) + 1] = copy.deepcopy(cell)
+            return g
+        picks = st.lists(st.tuples(st.integers(0, 3), st.integers(0, 9), st.integers(0, 9), st.booleans()), max_size=4)
+        cases = st.tuples(st.tuples(sheets.grids(fmt, headers="any"), picks).map(dupify), optst).map(lambda t: {"grid": t[0], "opts": t[1]})
         hyp_search(ctx, f"c13-{fmt}", cases, lambda c: evaluate_grid(ctx, c["grid"], fmt, part, c["opts"]), n, part)
         cases2 = sheets.grids(fmt, headers="plain").map(lambda g: {"grid": g, "opts": {}})
         hyp_search(ctx, f"c13-{fmt}-plain", cases2, lambda c: evaluate_grid(ctx, c["grid"], fmt, part, c["opts"]), n // 2, part)
